@@ -135,6 +135,17 @@ def run(ctx):
                         pr = subprocess.run([sys.executable, '-m', 'segno.cli'] + argv, capture_output=True, env=dict(os.environ, PYTHONPATH=common.REPO), timeout=60)
                         routes['cli ' + ' '.join(flags)] = mask(open(p, 'rb').read()) if pr.returncode == 0 and os.path.exists(p) else \
                             ('cli exit %d: %s' % (pr.returncode, pr.stderr[-120:].decode(errors='replace'))).encode()
+                        if kind == 'svg':
+                            # ... and the gzip-compressed variant through the command line, extension in any letter case
+                            zext = ('svgz', 'SVGZ', 'SvgZ')[oi % 3]
+                            pz = os.path.join(d, 'cz%d_%d.%s' % (si, oi, zext))
+                            argz = ['-o', pz] + argv[2:]
+                            pr = subprocess.run([sys.executable, '-m', 'segno.cli'] + argz, capture_output=True, env=dict(os.environ, PYTHONPATH=common.REPO), timeout=60)
+                            try:
+                                routes['cli .%s %s' % (zext, ' '.join(flags))] = mask(gzip.open(pz, 'rb').read()) if pr.returncode == 0 else \
+                                    ('cli exit %d: %s' % (pr.returncode, pr.stderr[-120:].decode(errors='replace'))).encode()
+                            except OSError as ex:
+                                routes['cli .%s %s' % (zext, ' '.join(flags))] = ('not a gzip file: %s' % ex).encode()
                     for name, got in routes.items():
                         n += 1
                         want = ref.replace(b"'", b'"') if name == 'svg data uri' else ref
